@@ -42,7 +42,12 @@ def main():
         sys.exit("no demo in " + str(seeded))
     shutil.copy(demo, out / demo.name)
     meta = json.loads((seeded / "meta.json").read_text()) if (seeded / "meta.json").exists() else {}
+    previous = json.loads((out / "meta.json").read_text()) if (out / "meta.json").exists() else {}
     meta = {"property": a.prop, "from_agent": meta}
+    # keep what earlier verification runs established (baseline result, verdicts of the checks before they were strengthened)
+    if previous.get("baseline_with_change"):
+        meta["baseline_with_change"] = previous["baseline_with_change"]
+    meta["earlier_check_verdicts"] = previous.get("earlier_check_verdicts", []) + ([{k: v["exit"] for k, v in previous["checks"].items()}] if previous.get("checks") else [])
     chk = sh(["git", "-C", "/repo", "apply", "--check", str(out / "patch.diff")])
     meta["applies_to_repo_head"] = chk.returncode == 0
     meta["repo_head"] = sh(["git", "-C", "/repo", "rev-parse", "--short", "HEAD"]).stdout.strip()
@@ -60,7 +65,7 @@ def main():
         r = sh([str(VERIF / "tools" / "against.sh"), str(wt), c], timeout=7200)
         lines = [l for l in r.stdout.splitlines() if l.startswith(("VIOLATION", "  signature", "HARNESS"))]
         meta["checks"][c] = {"exit": r.returncode, "lines": lines[:6]}
-    ok = meta["demo_with_change"]["exit"] != 0 and meta["demo_without_change"]["exit"] == 0 and (a.skip_baseline or meta["baseline_with_change"]["exit"] == 0)
+    ok = meta["demo_with_change"]["exit"] != 0 and meta["demo_without_change"]["exit"] == 0 and meta.get("baseline_with_change", {}).get("exit") == 0
     meta["confirmed"] = ok
     meta["what_i_ran"] = "git apply --check on /repo HEAD; demo against the worktree and against /repo/src; pinned baseline in the worktree; checks via tools/against.sh (CMVERIF_REPO=<worktree>)"
     (out / "meta.json").write_text(json.dumps(meta, indent=1) + "\n")
